@@ -43,7 +43,10 @@ def upMask (nas : Nas) (sedn : Nat) (usetdn : List Row) (dnids : List Nat) :
   if m.count true < dnids.length then do
     let upids ← lookupD nas.upids sedn
     let ids := nodeIds usetdn
-    if upids.length ≠ ids.length then .error .index     -- boolean index of another length
+    if upids.length ≠ ids.length then
+      -- boolean index of another length: IndexError - pandas answers an EMPTY boolean indexer on a
+      -- non-empty Index with a ValueError of its own
+      (if upids.length = 0 then .error .value else .error .index)
     else
       let sel := ((ids.zip upids).filter fun p => (dnids.map Int.ofNat).contains p.2).map (·.1)
       let m2 := idMask usetdn sel
